@@ -7,7 +7,8 @@ CONSTANTS
   MaxDepth = 3
   MaxItems = 3
   MaxSteps = 4
-  FullSetup = TRUE
+  MinSteps = 0
+  Pick <- PickAll
   Variants = {"same", "flags", "order", "members", "nested"}
   Dev = {}
   FieldOptions <- SmallOptions
